@@ -5,7 +5,7 @@ from oracle_util import *  # noqa
 from tokutil import *  # noqa
 
 ID = "C02"
-LEAN_MODULE = ["SCoda.Props.C02", "SCoda.Props.Glue"]
+LEAN_MODULE = ["SCoda.Props.C02", "SCoda.Props.Glue", "SCoda.Props.C02b"]
 LEVEL = "proof"
 CLAUSES = [
     ("the vocabulary maps its tokens one-to-one onto the consecutive ids 0..size-1 (for duplicate-free bins: known finding D16)",
@@ -16,6 +16,14 @@ CLAUSES = [
     ("every token tokenise emits for an accepted input is a member (from any carried state)",
      ["SCoda.C02.tokenise_closed", "SCoda.C02.encode_total_on_tokenise"]),
     ("every vocabulary token is accepted by detokenise", ["SCoda.C02.detok_accepts", "SCoda.C02.detokenise_accepts"]),
+    ("STRING LEVEL (audit A9): the two string-building paths agree and every key parses — for tokens with non-negative fields `parseTok (render t) = t` "
+     "(Python's `_split_token` + `int()` on the exact Python text), so `render` is injective, the rendered vocabulary has no duplicate key (the Python dict holds "
+     "exactly the model's entries), every rendered tokenise output is a rendered vocabulary key, and every vocabulary string parses to its token and is accepted by "
+     "the detokeniser step; the prefix facts (pairwise distinct, free of '-', '_' and digits) are decided over the regenerated prefix table; "
+     "negative constructor arguments are outside (the real tokeniser rejects its own vocabulary there: `rst_-5`)",
+     ["SCoda.C02b.parse_render", "SCoda.C02b.render_injective", "SCoda.C02b.render_vocab_nodup", "SCoda.C02b.vocab_tokens_parse",
+      "SCoda.C02b.vocab_strings_detok_accept", "SCoda.C02b.tokenise_strings_in_vocab", "SCoda.C02b.prefixes_distinct", "SCoda.C02b.prefixes_clean",
+      "SCoda.C02b.prefixes_used", "SCoda.C02b.parse_render_statement_false", "SCoda.C02b.vocab_tokens_parse_statement_false"]),
     ("glue: the merge/pairing code in front of the tokeniser core hands it events whose channels are track indices (hypothesis ChannelsOk)",
      ["SCoda.Glue.extract_channels"]),
 ]
